@@ -15,7 +15,7 @@
    detector on free-running workloads (engine race), with the lock protocol of Conc.v stating
    which latch protects what.  Known findings K9 and K11 are listed in KNOWN_FINDINGS.txt. *)
 From Coq Require Import List Arith Bool.
-From ColumnV Require Import GenLockGraph Locks LockOrder.
+From ColumnV Require Import GenLockGraph GenShape Locks LockOrder.
 Import ListNotations.
 
 Theorem c18_lock_order_acyclic : upward lock_rank lock_edges = true.
@@ -39,3 +39,11 @@ Theorem c18_no_deadlock : forall (s : sys),
   exists t, In t s /\ enabled s t = true.
 Proof. exact column_locks_no_deadlock. Qed.
 Print Assumptions c18_no_deadlock.
+
+(* the thread model of Locks.v has every thread release what it acquired; re-derived from the source
+   on every run (translate/shape.go lockBalance): every Lock / RLock statement of the two packages is
+   followed in its statement list by the matching release or its defer, with no return, goto, panic
+   or region-leaving break / continue in between *)
+Theorem c18_locks_released_on_every_path : shape_locks_released_on_every_path = true.
+Proof. reflexivity. Qed.
+Print Assumptions c18_locks_released_on_every_path.
